@@ -4,18 +4,24 @@ Space: a finite catalogue of small static methods (assembled with gen/dalvik.py,
   tier A (operators)   every int/long binary opcode in 23x, /2addr, /lit16, /lit8 form with boundary literals, every
                        unary op, every cast among int/long/byte/short/char (single opcode or two-opcode composition),
                        every const form with boundary literals (returned and used as an operand), cmp-long -- each a 1-3
-                       instruction method, plus byte/short/char parameter and return types around the casts;  thorough
+                       instruction method, plus byte/short/char parameter and return types around the casts, plus every
+                       binary operator with a CONSTANT left / right / both operand(s) from {0,1,-1,2,31,32,0x7fffffff,
+                       0x80000000L,-0x80000000} loaded by a const / const-wide form (quick: the shortest form, 23x, a
+                       diagonal of constant pairs; thorough: every form that can express it, 2addr, all pairs);  thorough
                        adds operand-placement variants (reversed, same register, result into a parameter register, via
                        a moved copy)
   tier B (propagation) every ordered pair of a 16-op int alphabet chained through a temporary ("tmp": t=op1(a,b);
                        r=op2(t,b)) and through parameter reuse ("reuse": r=op2(a,t));  thorough adds two more chain
                        modes and the 13-op long alphabet;  plus hand-written propagation hazards ("special": swap,
-                       copy chains, redefinition of a propagated source, a div/rem whose result is unused)
+                       copy chains, redefinition of a propagated source, a div/rem whose result is unused, and "dead
+                       chains": a div/rem (23x, 2addr, lit 0) whose result only feeds 1-2 (thorough 3) dead consumers
+                       -- arithmetic, cast, move, compare -- while an unrelated value is returned)
   tier C (structure)   if / if-else (javac and dx layouts, merged and separate returns) for each of the 12 if-* ops,
                        cmp-long + if-*z, every 2- and 3-condition short-circuit shape (jump-target enumeration) with
                        and without else, while / do-while / for / nested / break / return-from-loop / continue /
                        compound-condition / loop-and-a-half / rotated (javac "goto cond") loops (iteration counts bounded
-                       by (a & 7)), nested if and else-if ladders, a division computed before a branch or a loop,
+                       by (a & 7)), nested if and else-if ladders, a division computed before a branch or a loop or
+                       tested by an if with an empty body,
                        values defined in a loop body and used by the do-while condition / after the loop, packed and
                        sparse switches with default, gaps, shared targets, fall-through, returns, switch in a loop --
                        instantiated over the comparison ops (quick: a diagonal of op tuples; thorough: full op product)
@@ -157,6 +163,91 @@ def _fam(mn):
     return mn.split("/")[0]
 
 
+KL = [0, 1, -1, 2, 31, 32, 0x7fffffff, 0x80000000, -0x80000000]        # long constant operands
+KI = [0, 1, -1, 2, 31, 32, 0x7fffffff, -0x80000000]                    # int constant operands / shift counts
+
+
+def _wide_forms(v):
+    f = []
+    if -0x8000 <= v <= 0x7fff:
+        f.append(("const-wide/16", v))
+    if -0x80000000 <= v <= 0x7fffffff:
+        f.append(("const-wide/32", v))
+    f.append(("const-wide", v))
+    if v % (1 << 48) == 0:
+        f.append(("const-wide/high16", (v >> 48) & 0xffff))
+    return f
+
+
+def _int_forms(v):
+    f = []
+    if -8 <= v <= 7:
+        f.append(("const/4", v))
+    if -0x8000 <= v <= 0x7fff:
+        f.append(("const/16", v))
+    f.append(("const", v))
+    if v % (1 << 16) == 0:
+        f.append(("const/high16", (v >> 16) & 0xffff))
+    return f
+
+
+def _const_operand_programs(thorough):
+    """key = A:<op>-<type> ; pid A:<op>-<type>[/2addr]:K<pos>:<c>[,<c2>]:<const form(s)>"""
+    P = []
+    for ty, T in (("int", "I"), ("long", "J")):
+        wide = T == "J"
+        K = KL if wide else KI
+        forms = _wide_forms if wide else _int_forms
+        rt = ret_ins(T)
+        w = 2 if wide else 1
+        r0, k1, k2 = 0, w, 2 * w              # result, first constant, second constant
+        nloc = 3 * w
+        for op in BINOPS:
+            mn = "%s-%s" % (op, ty)
+            shift = op in ("shl", "shr", "ushr")
+            params = "JI" if (wide and shift) else T + T
+            alph = "Js" if params == "JI" else None
+            # the right operand of a long shift is an int
+            KR = KI if shift else K
+            rforms = _int_forms if shift else forms
+            for enc2 in (("", "/2addr") if thorough else ("",)):
+                def mk(pos, c, cf, c2=None, c2f=None, enc2=enc2, mn=mn, shift=shift, wide=wide):
+                    def body(s, R):
+                        other_r = R.b if shift and wide else R.a          # the non-constant right operand
+                        if enc2 == "":
+                            if pos == "left":
+                                s.ins(cf[0], k1, cf[1]).ins(mn, r0, k1, other_r)
+                            elif pos == "right":
+                                s.ins(cf[0], k1, cf[1]).ins(mn, r0, R.a, k1)
+                            else:
+                                s.ins(cf[0], k1, cf[1]).ins(c2f[0], k2, c2f[1]).ins(mn, r0, k1, k2)
+                            s.ins(rt, r0)
+                        else:
+                            if pos == "left":
+                                s.ins(cf[0], r0, cf[1]).ins(mn + "/2addr", r0, other_r).ins(rt, r0)
+                            elif pos == "right":
+                                s.ins(cf[0], k1, cf[1]).ins(mn + "/2addr", R.a, k1).ins(rt, R.a)
+                            else:
+                                s.ins(cf[0], r0, cf[1]).ins(c2f[0], k1, c2f[1]).ins(mn + "/2addr", r0, k1).ins(rt, r0)
+                    return body
+                for i, c in enumerate(K):
+                    for cf in (forms(c) if thorough else forms(c)[:1]):
+                        P.append(Prog("A:%s%s:Kleft:%d:%s" % (mn, enc2, c, cf[0]), "A:" + mn, params, T, nloc,
+                                      mk("left", c, cf), alph))
+                for c in KR:
+                    for cf in (rforms(c) if thorough else rforms(c)[:1]):
+                        P.append(Prog("A:%s%s:Kright:%d:%s" % (mn, enc2, c, cf[0]), "A:" + mn, params, T, nloc,
+                                      mk("right", c, cf), alph))
+                pairs = ([(c, c2) for c in K for c2 in KR] if thorough
+                         else [(c, KR[(i * 3 + 1) % len(KR)]) for i, c in enumerate(K)]
+                         + [(c, KR[(i * 5 + 4) % len(KR)]) for i, c in enumerate(K)])
+                for c, c2 in sorted(set(pairs), key=pairs.index):
+                    cf, c2f = forms(c)[0], rforms(c2)[0]
+                    P.append(Prog("A:%s%s:Kboth:%d,%d:%s,%s" % (mn, enc2, c, c2, cf[0], c2f[0]), "A:" + mn, params, T,
+                                  nloc, mk("both", c, cf, c2, c2f), alph))
+    return P
+
+
 # ---------------------------------------------------------------------------------------- tier A
 def tier_a(thorough):
     P = []
@@ -273,6 +364,9 @@ def tier_a(thorough):
                     o2 = "%s-%s" % (op2, "long" if T == "J" else "int")
                     add("%s:%s+%s" % (mn, tag, op2), mn, T + T, T, nloc,
                         lambda s, R, mn=mn, lit=lit, T=T, o2=o2: s.ins(mn, 0, lit).ins(o2, 0, 0, R.a).ins(ret_ins(T), 0))
+    # constant operands (left / right / both) of every binary operator: the literal's own type matters
+    # (a small long constant as the left operand of a shift, two small constants whose int result overflows)
+    P.extend(_const_operand_programs(thorough))
     # moves
     add("move", "move", "II", "I", 2, lambda s, R: s.ins("move", 0, R.b).ins("return", 0))
     add("move/from16", "move", "II", "I", 2, lambda s, R: s.ins("move/from16", 0, R.b).ins("return", 0))
@@ -411,6 +505,57 @@ def tier_b_special(thorough):
             lambda s, R, op=op: s.ins(op + "-int", 0, R.a, R.b).ins("const/4", 0, 3).ins("return", 0))
         add("%s-then-redef" % op, "II", "I", 2,
             lambda s, R, op=op: s.ins(op + "-int", 0, R.a, R.b).ins("const/4", R.b, 1).ins("add-int", 0, 0, R.b).ins("return", 0))
+    # dead chains: a div/rem whose result only feeds instructions that are themselves dead (1..3 consumers:
+    # arithmetic, cast, move, compare); the method returns an unrelated value but must still throw
+    kinds = ["arith", "cast", "move", "cmp"]
+    for ty in ("int", "long"):
+        wide = ty == "long"
+        T = "J" if wide else "I"
+        heads = [("23x", None), ("2addr", None)] + ([] if wide else [("lit8", 0), ("lit16", 0)])
+        for op in ("div", "rem"):
+            for enc2, lit in heads:
+                for n in ((1, 2, 3) if thorough else (1, 2)):
+                    for seq in itertools.product(kinds, repeat=n):
+                        if not wide and "cmp" in seq:
+                            continue                   # there is no int compare-to-value instruction
+
+                        def body(s, R, op=op, enc2=enc2, seq=seq, wide=wide, ty=ty):
+                            # v0(/v1) = quotient ; consumers write v2(/v3), v4(/v5), v6(/v7) ; cur tracks (reg, is_wide)
+                            mn = "%s-%s" % (op, ty)
+                            if enc2 == "23x":
+                                s.ins(mn, 0, R.a, R.b)
+                            elif enc2 == "2addr":
+                                s.ins("move-wide" if wide else "move", 0, R.a)
+                                s.ins(mn + "/2addr", 0, R.b)
+                            else:
+                                s.ins("%s/%s" % (mn, enc2), 0, R.a, 0)
+                            cur, cw = 0, wide
+                            for j, k in enumerate(seq):
+                                dst = 2 * (j + 1)
+                                if k == "arith":
+                                    if cw:
+                                        s.ins("add-long", dst, cur, R.a if wide else cur)
+                                    else:
+                                        s.ins("add-int/lit8", dst, cur, 1)
+                                elif k == "cast":
+                                    if cw:
+                                        s.ins("long-to-int", dst, cur)
+                                        cw = False
+                                    else:
+                                        s.ins("int-to-long", dst, cur)
+                                        cw = True
+                                elif k == "move":
+                                    s.ins("move-wide" if cw else "move", dst, cur)
+                                else:
+                                    if cw:
+                                        s.ins("cmp-long", dst, cur, cur)
+                                        cw = False
+                                    else:
+                                        s.ins("neg-int", dst, cur)
+                                cur = dst
+                            s.ins(ret_ins("J" if wide else "I"), R.b if not wide else R.a)
+                        name = "dead-chain.%s-%s/%s:%s" % (op, ty, enc2, ",".join(seq))
+                        P.append(Prog("B:special." + name, "B:special.dead-chain", T + T, T, 8, body))
     return P
 
 
@@ -1218,6 +1363,15 @@ def tier_c(thorough):
     for op in IF12:
         add("divif:div," + op, "divif", sk_divif(op, "div"))
         add("divif:rem," + op, "divif", sk_divif(op, "rem"))
+    for dop in ("div", "rem"):
+        for zop in IFZ:
+            def deadif(s, R, dop=dop, zop=zop):
+                L = D.Label()
+                s.ins(dop + "-int", 0, R.a, R.b)
+                s.ins("if-" + zop, 0, L)
+                s.label(L)
+                s.ins("return", R.a)
+            add("deadif:%s,%s" % (dop, zop), "deadif", deadif)
     for dop in ("div", "rem"):
         for use in ("inside", "after"):
             add("divloop:%s,%s" % (dop, use), "divloop", sk_divloop(dop, use))
